@@ -10,6 +10,7 @@ package main
 import (
 	"encoding/json"
 	"fmt"
+	"math"
 	"strings"
 
 	"github.com/google/mtail/internal/runtime/compiler/ast"
@@ -36,11 +37,12 @@ func (f *finder) VisitBefore(n ast.Node) (ast.Visitor, ast.Node) {
 func (f *finder) VisitAfter(n ast.Node) ast.Node { return n }
 
 type outcome struct {
-	Kind string  `json:"kind"` // int | float | other | rejected | parse_error | panic
-	I    int64   `json:"i"`
-	F    float64 `json:"f"`
-	Msg  string  `json:"msg,omitempty"`
-	Dump string  `json:"dump,omitempty"` // canonical dump of the folded right-hand side
+	Kind      string  `json:"kind"` // int | float | other | rejected | parse_error | panic
+	I         int64   `json:"i"`
+	F         float64 `json:"f"`
+	Msg       string  `json:"msg,omitempty"`
+	Dump      string  `json:"dump,omitempty"` // canonical dump of the folded right-hand side
+	NonFinite bool    `json:"nonfinite,omitempty"`
 }
 
 func foldReal(src string) (o outcome) {
@@ -63,6 +65,9 @@ func foldReal(src string) (o outcome) {
 	case *ast.IntLit:
 		return outcome{Kind: "int", I: l.I}
 	case *ast.FloatLit:
+		if math.IsNaN(l.F) || math.IsInf(l.F, 0) {
+			return outcome{Kind: "float", Msg: fmt.Sprint(l.F), NonFinite: true}
+		}
 		return outcome{Kind: "float", F: l.F}
 	}
 	return outcome{Kind: "other", Msg: fmt.Sprintf("%T", f.rhs), Dump: mlang.Dump(f.rhs)}
@@ -93,6 +98,9 @@ func runReal(name, src string, optimise bool, line string) (v value) {
 			if len(m.LVs) == 1 {
 				v.Set = true
 				v.I, v.F = m.LVs[0].I, m.LVs[0].F
+				if math.IsNaN(v.F) || math.IsInf(v.F, 0) {
+					v.F = 0
+				}
 			}
 		}
 	}
